@@ -138,13 +138,49 @@ CUSTOM = {"CustomA": CustomA, "CustomB": CustomB, "CustomC": CustomC, "CustomFal
           "CustomBase": CustomBase}
 
 
+class _EqAnything:
+    """Compares equal to everything (like unittest.mock.ANY)."""
+
+    def __eq__(self, other):
+        return True
+
+    def __ne__(self, other):
+        return False
+
+    __hash__ = None
+
+    def __repr__(self):
+        return "<ANYTHING>"
+
+
+class _AmbiguousEq:
+    """== gives an object without a truth value (like an array)."""
+
+    class _NoTruth:
+        def __bool__(self):
+            raise ValueError("The truth value of this comparison is ambiguous")
+
+    def __eq__(self, other):
+        return self._NoTruth()
+
+    __ne__ = __eq__
+    __hash__ = None
+
+    def __repr__(self):
+        return "<ARRAY-LIKE>"
+
+
+SPECIAL_VALUES = {"@any": _EqAnything(), "@amb": _AmbiguousEq()}
+
+
 class Scratch:
     """Object whose attribute traffic is logged (makes patch() undo observable)."""
 
     def __init__(self, env, initial):
         object.__setattr__(self, "_env", env)
         for k, v in initial.items():
-            object.__setattr__(self, k, v)
+            # ("@any" / "@amb": pre-existing values with an __eq__ of their own)
+            object.__setattr__(self, k, SPECIAL_VALUES.get(v, v) if isinstance(v, str) else v)
 
     def __setattr__(self, name, value):
         if name == "prop":
@@ -560,6 +596,8 @@ def build_case(program, env, runner_factory=None, default_result=None):
             run_tests_with = runner_factory
 
         def setUp(self):
+            if getattr(self, "_tvm_sibling", False):
+                return super().setUp()       # another instance of the class, running test_sibling: no actions
             env.log("enter", "setUp")
             run_actions(env, self, program.get("su_pre", []), "setUp")
             if program.get("upcall_su", True):
@@ -574,7 +612,12 @@ def build_case(program, env, runner_factory=None, default_result=None):
             env.log("leave", "test")
             return r
 
+        def test_sibling(self):
+            pass
+
         def tearDown(self):
+            if getattr(self, "_tvm_sibling", False):
+                return super().tearDown()
             env.log("enter", "tearDown")
             run_actions(env, self, program.get("td_pre", []), "tearDown")
             if program.get("upcall_td", True):
